@@ -1,7 +1,7 @@
 (** C20 — property theorems only: statement, [exact] of a lemma proved elsewhere, [Print Assumptions].
     Model: Model/C20_Loop.v (mirrors RecurrentSelectionBreedingProgram.initialize/reset/advance/evolve on an explicit
     heap; operators and logbook are arbitrary heap transformers, [opset]). *)
-From PV Require Import Lib.Common Model.C20_Loop Proofs.C20_Loop Proofs.C20_Chain Proofs.C20_Heap Proofs.C20_Indep Proofs.C20_Fresh Proofs.C20_Progress Proofs.C20_Sharing Proofs.C20_Main Gen.C20_Program Proofs.C20_Program.
+From PV Require Import Lib.Common Model.C20_Loop Proofs.C20_Loop Proofs.C20_Chain Proofs.C20_Heap Proofs.C20_Indep Proofs.C20_Fresh Proofs.C20_Progress Proofs.C20_Sharing Proofs.C20_Main Gen.C20_Program Proofs.C20_Program Model.C20_Session Model.C20_Object Gen.C20_Kernel Proofs.C20_Kernel Proofs.C20_Session.
 Local Open Scope nat_scope.
 
 (** Call order, time index, replicate counter — for ALL operators/logbooks, ALL counts, ALL states: the calls of
@@ -192,6 +192,134 @@ Theorem C20_generated_trace_shape : forall ops strict initres nrep ngen li st, l
   end.
 Proof. intros ops strict initres nrep ngen li st H. rewrite (gen_evolve_is_model ops strict initres nrep ngen li st H). exact (trace_shape ops strict initres nrep ngen li st). Qed.
 Print Assumptions C20_generated_trace_shape.
+
+(** The ATTRIBUTE LAYER of the current source: Gen/C20_Kernel.v is regenerated on every run from the seventeen property
+    getters / setters and the constructor (fail closed: an unclassified class member, e.g. a copy hook or a caching helper,
+    is rejected).  It coincides with the tables the programme model assumes. *)
+Theorem C20_kernel_tables : gen_props = model_props /\ gen_ctor = model_ctor /\ gen_guards = seq 0 5.
+Proof. exact (conj gen_props_is_model (conj gen_ctor_is_model gen_guards_is_model)). Qed.
+Print Assumptions C20_kernel_tables.
+
+(** the GENERATED constructor stores every argument under its own name: operators of the right classes, an integer t_max,
+    start containers that are dicts or None give a programme whose start slots are the containers handed over (the same
+    objects), whose clock is 0, whose t_max is the argument and which has no working containers yet ... *)
+Theorem C20_kernel_constructor : forall tmax s0 s1 s2 s3 s4,
+  start_value s0 = true -> start_value s1 = true -> start_value s2 = true -> start_value s3 = true -> start_value s4 = true ->
+  exists a,
+    construct gen_props gen_ctor [XOp 0; XOp 1; XOp 2; XOp 3; XOp 4; XInt tmax; s0; s1; s2; s3; s4] no_attrs = (a, true) /\
+    length a = 17 /\
+    abs_start a = map (fun v => dict_slot (Some v)) [s0; s1; s2; s3; s4] /\
+    abs_work a = [None; None; None; None; None] /\
+    (forall j, 5 <= j < 10 -> nth j a None = None) /\
+    abs_int a 15 = Some 0%Z /\ abs_int a 16 = Some tmax /\
+    (forall k, k < 5 -> abs_op a k = Some k).
+Proof. exact kernel_constructor. Qed.
+Print Assumptions C20_kernel_constructor.
+
+(** ... and accepts nothing else *)
+Theorem C20_kernel_constructor_only : forall params a,
+  length params = 11 ->
+  construct gen_props gen_ctor params no_attrs = (a, true) ->
+  exists tmax s0 s1 s2 s3 s4,
+    params = [XOp 0; XOp 1; XOp 2; XOp 3; XOp 4; XInt tmax; s0; s1; s2; s3; s4] /\
+    start_value s0 = true /\ start_value s1 = true /\ start_value s2 = true /\ start_value s3 = true /\ start_value s4 = true.
+Proof. exact kernel_constructor_only. Qed.
+Print Assumptions C20_kernel_constructor_only.
+
+(** the state every case / session of the correspondence starts from is the abstraction of what the generated constructor builds *)
+Theorem C20_kernel_init_state : forall leaves dicts start tmax rep0 (s : list (option loc)),
+  length start = 5 -> s = map (dict_loc (length leaves)) start ->
+  exists a, construct gen_props gen_ctor
+              ([XOp 0; XOp 1; XOp 2; XOp 3; XOp 4; XInt tmax] ++ map (fun o => match o with Some l => XDict l | None => XNone end) s) no_attrs = (a, true) /\
+            abs_start a = p_start (init_state leaves dicts start tmax rep0) /\
+            abs_work a = p_work (init_state leaves dicts start tmax rep0) /\
+            abs_int a 15 = Some (p_t (init_state leaves dicts start tmax rep0)) /\
+            abs_int a 16 = Some (p_tmax (init_state leaves dicts start tmax rep0)).
+Proof. exact kernel_init_state. Qed.
+Print Assumptions C20_kernel_init_state.
+
+(** set / get laws of the GENERATED property table: an accepting setter makes its own getter return exactly the value handed
+    over and changes no other property; a rejecting setter changes nothing *)
+Theorem C20_kernel_set_get : forall a p v,
+  length a = 17 -> p < 17 ->
+  match prop_set gen_props a p v with
+  | (a', true) => length a' = 17 /\ prop_get gen_props a' p = Some v /\
+                  forall q, q < 17 -> q <> p -> prop_get gen_props a' q = prop_get gen_props a q
+  | (a', false) => a' = a
+  end.
+Proof. exact kernel_set_get. Qed.
+Print Assumptions C20_kernel_set_get.
+
+(** the setter commands of the session model are the GENERATED setters seen through the abstraction: start_X takes a dict or
+    None, a working container a dict only, the clock and t_max an int only; each touches its own slot only *)
+Theorem C20_kernel_session_setters : forall a j v, length a = 17 -> j < 5 ->
+  (let '(a', ok) := prop_set gen_props a j (setv_value v) in
+   (abs_start a', ok) = start_after v j (abs_start a) /\ abs_work a' = abs_work a) /\
+  (let '(a', ok) := prop_set gen_props a (5 + j) (setv_value v) in
+   (abs_work a', ok) = work_after v j (abs_work a) /\ abs_start a' = abs_start a).
+Proof. intros a j v L Hj. split; [exact (kernel_start_setter a j v L Hj) | exact (kernel_work_setter a j v L Hj)]. Qed.
+Print Assumptions C20_kernel_session_setters.
+
+Theorem C20_kernel_clock_setters : forall a v, length a = 17 ->
+  (forall z, v = XInt z -> exists a1 a2, prop_set gen_props a 15 v = (a1, true) /\ abs_int a1 15 = Some z /\ abs_int a1 16 = abs_int a 16 /\
+                                         prop_set gen_props a 16 v = (a2, true) /\ abs_int a2 16 = Some z /\ abs_int a2 15 = abs_int a 15) /\
+  ((forall z, v <> XInt z) -> prop_set gen_props a 15 v = (a, false) /\ prop_set gen_props a 16 v = (a, false)).
+Proof. exact kernel_clock_setters. Qed.
+Print Assumptions C20_kernel_clock_setters.
+
+(** advance(ngen, lbook) as a public call from ANY clock value: generation g (0-based) makes the eight calls in order at
+    t_cur + g, the clock ends at t_cur + ngen, t_max / logbook counter / start state are untouched; a prefix if something raises *)
+Theorem C20_advance_trace : forall ops ngen st,
+  match advance ops ngen st with
+  | (st', evs, ok) =>
+      (ok = true -> map sig evs = gens_sig (Z.to_nat ngen) (p_t st) (p_tmax st) (p_rep st) /\
+                    p_t st' = (p_t st + Z.of_nat (Z.to_nat ngen))%Z /\ p_tmax st' = p_tmax st /\ p_rep st' = p_rep st /\
+                    p_start st' = p_start st)
+      /\ (ok = false -> prefix (map sig evs) (gens_sig (Z.to_nat ngen) (p_t st) (p_tmax st) (p_rep st)))
+  end.
+Proof. exact advance_trace. Qed.
+Print Assumptions C20_advance_trace.
+
+(** Sessions on ONE programme object — for ALL sequences of evolve calls interleaved with is_initialized, the t_cur / t_max
+    setters, replacement of any operator / the initialisation operator / the logbook by arbitrary programs of the action
+    language, and shallow copies of the programme: while no command raises, the start containers stay the same objects, no cell
+    of the start region is ever written, and every replicate of every run starts on fresh locations carrying the start contents,
+    whatever earlier runs and earlier operators did or remembered. *)
+Theorem C20_session_start_protected : forall h0 start cs lo ss,
+  start_wf h0 start -> length start = 5 ->
+  forallb (fun o : option loc => match o with Some _ => true | None => false end) start = true ->
+  (lo <= 1)%Z -> forallb (safe_cmd lo) cs = true -> inv h0 start false lo (s_st ss) ->
+  match run_cmds cs ss with
+  | (ss', evs, ok) =>
+      ok = true ->
+      p_start (s_st ss') = start /\ (forall l, SR h0 start l -> hget (p_heap (s_st ss')) l = hget h0 l) /\ Forall (Qev h0 start) evs
+  end.
+Proof. intros h0 start cs lo ss Hwf Hl Hi Hlo Hs Hinv. exact (session_start_protected h0 start Hwf Hl Hi cs lo ss Hlo Hs Hinv). Qed.
+Print Assumptions C20_session_start_protected.
+
+(** a later command sees exactly the state the earlier commands left: a session splits at any point *)
+Theorem C20_session_composes : forall cs1 cs2 ss,
+  run_cmds (cs1 ++ cs2) ss =
+    let '(ss1, ev1, ok1) := run_cmds cs1 ss in let '(ss2, ev2, ok2) := run_cmds cs2 ss1 in (ss2, ev1 ++ ev2, ok1 && ok2).
+Proof. exact run_cmds_app. Qed.
+Print Assumptions C20_session_composes.
+
+(** copy.deepcopy(programme): containers present exactly where the original has them; clock, t_max, logbook counter and the
+    operators' private memory carried over *)
+Theorem C20_deepcopy_prog_shape : forall st st', deepcopy_prog st = (st', true) ->
+  present (p_start st') = present (p_start st) /\ present (p_work st') = present (p_work st) /\
+  p_t st' = p_t st /\ p_tmax st' = p_tmax st /\ p_rep st' = p_rep st /\ p_stash st' = p_stash st.
+Proof. exact deepcopy_prog_shape. Qed.
+Print Assumptions C20_deepcopy_prog_shape.
+
+(** non-vacuity of the session theorem: a session with two runs, a replaced operator, a moved clock and a new logbook on the
+    example start state below meets the hypotheses and does not raise *)
+Example C20_session_hyps_satisfiable :
+  let st := init_state [[1; 2]; [3]]%Z [[(0%Z, 0); (1%Z, 0)]; [(0%Z, 1)]; []; []; [(2%Z, 1)]] [Some 0; Some 1; Some 0; Some 3; Some 4] 5 0 in
+  let g := mkProgs [AApp 0 0 7; ASet 5 0 [1%Z]] [AAppT 1 0; ADel 0 2] [ASetT 3 1; AStash 0 0] [ANew 0; AUnstash 2 0] [] [] [] [] [] in
+  let cs := [CEvolve 2 1 true; CSetOp 2 [AApp 0 0 9]; CSetT (Some 4%Z); CIsInit; CBook 7 [] [] [] [AAppT 0 0] []; CCopy; CEvolve 2 2 false] in
+  forallb (safe_cmd 0) cs = true /\ snd (run_cmds cs (mkSS st g false [])) = true.
+Proof. split; vm_compute; reflexivity. Qed.
 
 (** non-vacuity: a concrete five-container start state with shared leaves and one dict in two slots meets every
     hypothesis, with in-place mutating, aliasing and remembering operators *)
